@@ -1,7 +1,7 @@
 ------------------------------- MODULE Trace_Ext -------------------------------
 (* Extended conformance (not one of the twenty properties): recorded results of  *)
 (* the extractors of the real library against spec/Extract.tla.                  *)
-EXTENDS Ztp, Json, IOUtils, TLC
+EXTENDS Ztp, Dhcp6Mods, Json, IOUtils, TLC
 Trace == ndJsonDeserialize(IOEnv.VH_TRACE)
 NShards == atoi(IOEnv.VH_SHARDS)
 N == Len(Trace)
@@ -25,6 +25,26 @@ Agree(e) ==
          [] e.op \in {"Ztp4", "Ztp6"} ->
               LET x == IF e.op = "Ztp4" THEN Ztp4(e.pkt) ELSE Ztp6(e.msg) IN
               e.st = x.st /\ (x.st = "ok" => e.vendor = x.vendor /\ e.model = x.model /\ e.serial = x.serial)
+         [] e.op = "Acc6x" -> /\ DOMAIN e.res = MsgAccNames
+                              /\ \A n \in MsgAccNames : e.res[n] = MsgAcc(n, e.msg.opts, e.ent, e.def)
+         [] e.op = "AccRelay" -> /\ DOMAIN e.res = RelayAccNames
+                                 /\ \A n \in RelayAccNames : e.res[n] = RelayAcc(n, e.msg.opts)
+         [] e.op = "Sub6" -> /\ DOMAIN e.res = SubAccNames(e.kind)
+                             /\ \A n \in SubAccNames(e.kind) : e.res[n] = SubAcc(n, e.opts)
+         [] e.op = "Cont6" -> LET x == CASE e.kind = "Add" -> Add6(e["in"].opts, e.o)
+                                         [] e.kind = "Update" -> Update6(e["in"].opts, e.o)
+                                         [] e.kind = "Del" -> Del6(e["in"].opts, e.code)
+                              IN /\ e.out = [e["in"] EXCEPT !.opts = x]
+                                 /\ e.get = GetAll(x, e.code) /\ e.getone = FirstOpt(x, e.code)
+         [] e.op = "Mod6" -> e.out = Mods6(e["in"], e.mods)
+         [] e.op = "Build6m" ->
+              LET xid == IF e.out.ok THEN e.out.v.xid ELSE <<0, 0, 0>>         \* fresh transaction ids
+                  x == CASE e.fn = "NewMessage" -> Ok(NewMessage6(xid, e.mods))
+                         [] e.fn = "Solicit" -> Solicit(e.hw, xid, e.time, e.mods)
+                         [] e.fn = "Advertise" -> AdvertiseM(e["in"], e.mods)
+                         [] e.fn = "Request" -> RequestM(e["in"], xid, e.mods)
+                         [] e.fn = "Reply" -> ReplyM(e["in"], e.mods)
+              IN e.out.ok = x.ok /\ (x.ok => e.out.v = x.v)
          [] OTHER -> FALSE
 
 ShardLo(k) == ((k - 1) * N) \div NShards + 1
